@@ -152,4 +152,14 @@ PROPS = {
                         "Metadata.map is an opaque JSON object in the model: the theorems cover metadata that is JSON-representable (string keys at every depth, no YAML tags); front matter outside that class is accepted by the parser and does not survive serialization (known finding F-C15-1, re-found by the oracle every run); equality of the YAML values read back is evaluated by the oracle on the implementation only",
                         "u32/usize ranges are not modelled (naturals)"],
     },
+    "C16": {
+        "gen": [{"script": "gen_units_file.py"}],
+        "trusted_base": COMMON_TB + [FLOAT_TB,
+            "translators/gen_units_file.py (units.toml -> Lean value with tomllib; SI prefix ratios, FractionsConfig defaults and clamps scraped from src/convert)",
+            "modelled, not verified: toml/serde deserialisation of units files (the harness sends the deserialised UnitsFile value), build.rs' quote/prettyplease code generation (tied by comparing Converter::bundled() with the model built from the generated units.toml value), hashbrown iteration order (sent to the model as it is), slice::sort_by (a stable sort on a total order), enum_map!, Arc, format!",
+            "the harness reads the thresholds, the index and the fraction settings of a Converter from its derived Debug rendering (they are not reachable through the public API)"],
+        "assumptions": ["a build is: a new ConverterBuilder, add_units_file for each layer in order, the first error ends the build, then finish",
+                        "ratios, differences and accuracies are finite and ratios positive (the property's premise); outside it the model is still compared with the code but the oracle does not judge",
+                        "ordering clauses (best lists in non-decreasing ratio order) are proved over exact rationals"],
+    },
 }
